@@ -51,8 +51,8 @@ impl Property for C06 {
     }
     fn plan(&self, suite: SuiteId, tier: Tier) -> Vec<(u32, u32)> {
         let per = match (tier, suite.slow()) {
-            (Tier::Quick, false) => 12,
-            (Tier::Quick, true) => 3,
+            (Tier::Quick, false) => 30,
+            (Tier::Quick, true) => 6,
             (Tier::Thorough, false) => 250,
             (Tier::Thorough, true) => 50,
         };
